@@ -184,6 +184,15 @@ def check_unordered(case) -> Result:
     ct = Counter(_residue_key(aa, ms) for aa, ms in model.residues_with_mods(model.expand_static(target)))
     cq = Counter(_residue_key(aa, ms) for aa, ms in model.residues_with_mods(model.expand_static(query)))
     exp = not (cq - ct)
+    # the property does not say whether [a][b] and [b][a] on one residue are the same modified residue: assert only where the
+    # order-sensitive and the order-insensitive reading agree
+    def okey(aa, ms):
+        return aa + '|' + '|'.join(repr((model.typed(t), m)) for t, m in ms)
+    ct_o = Counter(okey(aa, ms) for aa, ms in model.residues_with_mods(model.expand_static(target)))
+    cq_o = Counter(okey(aa, ms) for aa, ms in model.residues_with_mods(model.expand_static(query)))
+    if (not (cq_o - ct_o)) != exp:
+        r.classes = ['modification-order-decides (not asserted)']
+        return r
     ts, qs = model.write_pep(target), model.write_pep(query)
     got = pt.is_subsequence(qs, ts, order=False)
     r.nontrivial = bool(target['internal'] or target['static']) and len(query['seq']) >= 2
